@@ -189,7 +189,16 @@ def run_chunk(spec, tier, seed):
             for a, i in enumerate(idle):
                 for b, j in enumerate(idle):
                     minor = [[Wi[x][y] for y in range(len(idle)) if y != b] for x in range(len(idle)) if x != a]
-                    goals.append((f"closed_form[{i},{j}]", tz(P[i, j]) * pw == tz(W[i, j]) * _perm(minor)))
+                    pij = z3.simplify(tz(P[i, j]))
+                    if z3.is_rational_value(pij) and not (z3.is_int_value(pij) or pij.denominator_as_long() in (1, 2, 4, 8)):
+                        # a concrete P entry was computed by the real code in binary floating point (a branch where the weights were
+                        # decided to be all equal takes the numeric fast path): 1/3 etc. come back rounded, so the identity is
+                        # stated to 1e-12 relative instead of exactly (A-REAL does not cover rounding of concrete numbers)
+                        d = pij * pw - tz(W[i, j]) * _perm(minor)
+                        eps = z3.RealVal("1/1000000000000")
+                        goals.append((f"closed_form[{i},{j}]", z3.And(d <= eps * pw, -d <= eps * pw)))
+                    else:
+                        goals.append((f"closed_form[{i},{j}]", tz(P[i, j]) * pw == tz(W[i, j]) * _perm(minor)))
             for i in range(len(rows)):
                 for j in range(len(rows)):
                     if locks[i] or locks[j]:
